@@ -52,6 +52,7 @@ type StreamCase struct {
 	Points    []P
 	RecTime   bool
 	Precision string
+	Slow      bool `json:",omitempty"` // the collector takes 1s (virtual) per point: the replay must not report its end before the last one is in
 }
 
 type B struct {
@@ -65,6 +66,7 @@ type B struct {
 type BatchCase struct {
 	Batches []B
 	RecTime bool
+	Slow    bool `json:",omitempty"`
 }
 
 func fieldsOf(fs []Fld) models.Fields {
@@ -87,17 +89,28 @@ func tm(ns int64) time.Time {
 type streamCol struct {
 	pts    []edge.PointMessage
 	closed int
+	delay  time.Duration
 }
 
-func (c *streamCol) CollectPoint(p edge.PointMessage) error { c.pts = append(c.pts, p); return nil }
+func (c *streamCol) CollectPoint(p edge.PointMessage) error {
+	if c.delay > 0 {
+		time.Sleep(c.delay)
+	}
+	c.pts = append(c.pts, p)
+	return nil
+}
 func (c *streamCol) Close() error                           { c.closed++; return nil }
 
 type batchCol struct {
 	bs     []edge.BufferedBatchMessage
 	closed int
+	delay  time.Duration
 }
 
 func (c *batchCol) CollectBatch(b edge.BufferedBatchMessage) error {
+	if c.delay > 0 {
+		time.Sleep(c.delay)
+	}
 	c.bs = append(c.bs, b)
 	return nil
 }
@@ -157,15 +170,23 @@ func runStream(t *testing.T, c StreamCase) (prob *problem) {
 		}
 	}
 	col := &streamCol{}
+	if c.Slow {
+		col.delay = time.Second
+	}
 	var rerr error
 	var zero time.Time
 	done := false
+	atEnd := 0
 	leak, pan := kit.Bubble(t, func() {
 		clk := clock.Fast()
 		zero = clk.Zero()
 		errC := kapacitor.ReplayStreamFromIO(clk, io.NopCloser(bytes.NewReader(buf.Bytes())), col, c.RecTime, c.Precision)
 		rerr = <-errC
+		atEnd = len(col.pts)
 		done = true
+		kit.Wait()
+		time.Sleep(time.Duration(len(pts)+1) * time.Second)
+		kit.Wait()
 	})
 	if pan != nil {
 		return &problem{"panic", fmt.Sprintf("replay panicked: %v", pan)}
@@ -178,6 +199,9 @@ func runStream(t *testing.T, c StreamCase) (prob *problem) {
 	}
 	if col.closed != 1 {
 		return &problem{"not-closed", fmt.Sprintf("collector closed %d times", col.closed)}
+	}
+	if atEnd < len(col.pts) {
+		return &problem{"ended-early", fmt.Sprintf("the replay reported its end when the collector had received %d of %d points", atEnd, len(col.pts))}
 	}
 	if len(col.pts) != len(pts) {
 		return &problem{"count", fmt.Sprintf("recorded %d points, replayed %d (recording %q)", len(pts), len(col.pts), buf.String())}
@@ -245,10 +269,18 @@ func runBatch(t *testing.T, c BatchCase) (prob *problem) {
 		}
 	}
 	col := &batchCol{}
+	if c.Slow {
+		col.delay = time.Second
+	}
 	var rerr error
+	atEnd := 0
 	leak, pan := kit.Bubble(t, func() {
 		errC := kapacitor.ReplayBatchFromIO(clock.Fast(), []io.ReadCloser{io.NopCloser(bytes.NewReader(buf.Bytes()))}, []kapacitor.BatchCollector{col}, c.RecTime)
 		rerr = <-errC
+		atEnd = len(col.bs)
+		kit.Wait()
+		time.Sleep(time.Duration(len(bs)+1) * time.Second)
+		kit.Wait()
 	})
 	if pan != nil {
 		return &problem{"batch-panic", fmt.Sprintf("replay panicked: %v", pan)}
@@ -261,6 +293,9 @@ func runBatch(t *testing.T, c BatchCase) (prob *problem) {
 	}
 	if col.closed != 1 {
 		return &problem{"batch-not-closed", fmt.Sprintf("collector closed %d times", col.closed)}
+	}
+	if atEnd < len(col.bs) {
+		return &problem{"batch-ended-early", fmt.Sprintf("the replay reported its end when the collector had received %d of %d batches", atEnd, len(col.bs))}
 	}
 	// empty batches are dropped by the reader: compare non-empty ones
 	var want []rec
@@ -506,7 +541,7 @@ func batchCases() []BatchCase {
 
 func TestCheck(t *testing.T) {
 	r := rep.New("C18", "exploration",
-		"recordings: every field value of a typed boundary alphabet (int incl. >2^53 and extremes, floats incl. integral and extreme magnitudes, bools, strings with quotes, commas, spaces, '=', backslashes, newline, unicode, empty) x field keys with special characters; measurement names, tag keys and tag values, db and rp names over the same specials; 0-2 tags; timestamp patterns (equal times, gaps, sub-precision steps), precisions n/u/ms/s, 20 interleaved points over two databases; batches over the same values, group tags with specials, byName, no group, several groups, tmax equal to / later than the last point, empty batches; an enumerated batch family: every sequence of up to 2 (thorough 3) batches over group tags {none, g=a, g=b} x first point at {1s, 0.5s, 11s} (a later batch may start before the first) x 1-2 points x each point with/without own tags x end time {last point, +10s}; the file-backed store of services/replay: batch recordings of tasks with 1..13 (thorough 120) queries x batches-per-query patterns written through BatchArchiver and replayed through BatchReaders (collector i must receive what was recorded for query i), stream recordings of 0..5000 points through StreamWriter/StreamReader. Each case is written with Write{Point,Batch}ForRecording and replayed with Replay{Stream,Batch}FromIO in both clock modes inside a synctest bubble (goroutine-leak oracle); identity of db, rp, name, tags, field names/values/TYPES, group, order, timestamps identical or shifted by one constant. non-trivial = distinct cases containing a special character, a non-float field or more than one item")
+		"recordings: every field value of a typed boundary alphabet (int incl. >2^53 and extremes, floats incl. integral and extreme magnitudes, bools, strings with quotes, commas, spaces, '=', backslashes, newline, unicode, empty) x field keys with special characters; measurement names, tag keys and tag values, db and rp names over the same specials; 0-2 tags; timestamp patterns (equal times, gaps, sub-precision steps), precisions n/u/ms/s, 20 interleaved points over two databases; batches over the same values, group tags with specials, byName, no group, several groups, tmax equal to / later than the last point, empty batches; an enumerated stream family: every sequence of 1-2 points over measurement names {plain, with space, comma, '=', looking like name,tag=value} x tag sets {nil, empty, plain, value with space} x field keys {plain, with space}, both clock modes, fast and slow collector (the replay must not report its end before the last item was collected); an enumerated batch family: every sequence of up to 2 (thorough 3) batches over group tags {none, g=a, g=b} x first point at {1s, 0.5s, 11s} (a later batch may start before the first) x 1-2 points x each point with/without own tags x end time {last point, +10s}; the file-backed store of services/replay: batch recordings of tasks with 1..13 (thorough 120) queries x batches-per-query patterns written through BatchArchiver and replayed through BatchReaders (collector i must receive what was recorded for query i), stream recordings of 0..5000 points through StreamWriter/StreamReader, each also onto a path that still holds an earlier, larger recording. Each case is written with Write{Point,Batch}ForRecording and replayed with Replay{Stream,Batch}FromIO in both clock modes inside a synctest bubble (goroutine-leak oracle); identity of db, rp, name, tags, field names/values/TYPES, group, order, timestamps identical or shifted by one constant. non-trivial = distinct cases containing a special character, a non-float field or more than one item")
 	defer r.Write()
 	r.Assumption("database / retention policy names containing a newline are not enumerated (the recording format is line based by design)")
 	r.Assumption("measurement names, tag keys and tag values containing a backslash or a newline are not enumerated: the InfluxDB line protocol cannot represent them")
@@ -572,6 +607,19 @@ func TestCheck(t *testing.T) {
 			r.Sample(map[string]any{"batch": c})
 		}
 	}
+	streamFamily(func(c StreamCase) {
+		n++
+		if !rep.Mine(n) || r.Expired() {
+			return
+		}
+		r.Add("evaluations", 1)
+		r.Add("stream_family_cases", 1)
+		r.AddDistinct("nontrivial", 1)
+		rep.Current(map[string]any{"Stream": c})
+		if p := runStream(t, c); p != nil {
+			r.Violation("family:"+skey(p, c), p.msg+" | case "+rep.Short(c), map[string]any{"Stream": c})
+		}
+	})
 	familyCases(rep.Thorough(), func(c BatchCase) {
 		n++
 		if !rep.Mine(n) || r.Expired() {
